@@ -7,8 +7,10 @@ import (
 func init() { gens["C04"] = genC04 }
 
 // a view-producing step on tensor cur with shape sh
+var sliceOnly bool
+
 func randView(r *rng, cur int, sh []int) string {
-	if len(sh) >= 2 && r.intn(3) == 0 {
+	if len(sh) >= 2 && r.intn(3) == 0 && !sliceOnly {
 		return fmt.Sprintf("T:%d:%s", cur, fints(r.perm(len(sh))))
 	}
 	// valid slices only (views are the subject here, rejection is C02's)
